@@ -32,6 +32,9 @@ CHECKS = {
  "C10": ("exploration", "completion monitor with byte compare on recording storage; quiescence-based stuck detector with load canary, in child processes",
          "PRNG product of layout x picker mode x encryption policy pair x source mix (scripted honest seeders incl. choke/unchoke cycles, web seeds, both) x .torrent/magnet x 0-3 hostile other peers; with one reachable honest full source every scenario must end with NotifyComplete and byte-identical files. A scenario that neither completes nor moves for 3 s (stats, socket byte counters, web-seed requests; canary on time) is a stuck violation; otherwise inconclusive.",
          "End-game duplicate limit is left at its default (the statement does not quantify over it); a 'reject' from an unchoked source is not treated as honest behaviour. 'Always' = finite schedules explored.", "4/C10"),
+ "C04": ("exploration", "history explorer in child processes: per-step truthfulness predicates on Stats() + storage handles + stored bytes, bounded-progress predicates at quiescence (load canary), final convergence run; crashes and hangs via exit status / call watchdog / rain's own health check",
+         "Regression shapes + enumerated + PRNG command histories (start, stop, verify, announce, addpeer, addtracker, stats, waits, corrupt/truncate/delete files while stopped, close+reopen) under slow Open/ReadAt/WriteAt and scripted tracker answers to 'stopped'. After every step one Stats() sample is judged (Seeding => all pieces stored and hashing; Stopped => no peers, downloads, handshakes, open data files; Bytes.Completed consistent with Pieces.Have); at quiescence the last of start/stop/verify must have taken effect, a verification must not request data; finally Start + reachable honest seed must end Seeding with byte-identical files. A child death is a crash violation keyed by panic text and rain frame.",
+         "Mutations only while Stopped and quiescent. A Start issued while a verification is pending is not judged. One known finding: files corrupted/truncated while stopped are trusted on the next start (see known_findings.jsonl).", "4/C04"),
 }
 PENDING = {}
 props = [json.loads(l) for l in open(os.path.join(V, 'properties.jsonl'))]
